@@ -104,7 +104,45 @@ func parseListMap(p *parser, bp oper.BP, t *token.Token) ast.Expr {
 		rg := pos.Range(t, rb)
 		return ast.Map([]ast.Pair{}, rg)
 	}
-	return p.any("list or map", parseList(t), parseMap(t))
+	// a single attempt: whether the literal is a list or a map is decided by the
+	// token after its first element. (Trying a list first and re-parsing the same
+	// tokens as a map on failure took time exponential in the nesting depth of
+	// map literals: `[[[1:1]:1]:1]` nested n deep needed 2^n steps.)
+	return p.any("list or map", parseListOrMap(t))
+}
+
+func parseListOrMap(t *token.Token) func(p *parser) ast.Expr {
+	return func(p *parser) ast.Expr {
+		if p.peek().Kind == token.RIGHT_BRACKET {
+			return parseList(t)(p)
+		}
+		first := p.expr(0)
+		if p.tryEat(token.COLON) == nil {
+			// list: the remaining elements
+			elems := []ast.Expr{first}
+			for p.tryEat(token.COMMA) != nil {
+				if p.peek().Kind == token.RIGHT_BRACKET {
+					break
+				}
+				elems = append(elems, p.expr(0))
+			}
+			rb := p.mustEat(token.RIGHT_BRACKET)
+			return ast.List(elems, pos.Range(t, rb))
+		}
+		// map: the first value, then the remaining pairs
+		pairs := []ast.Pair{{Key: first, Val: p.expr(0)}}
+		for p.tryEat(token.COMMA) != nil {
+			if p.peek().Kind == token.RIGHT_BRACKET {
+				break
+			}
+			k := p.expr(0)
+			p.mustEat(token.COLON)
+			v := p.expr(0)
+			pairs = append(pairs, ast.Pair{Key: k, Val: v})
+		}
+		rb := p.mustEat(token.RIGHT_BRACKET)
+		return ast.Map(pairs, pos.Range(t, rb))
+	}
 }
 
 func parseList(t *token.Token) func(p *parser) ast.Expr {
@@ -123,27 +161,6 @@ func parseList(t *token.Token) func(p *parser) ast.Expr {
 		rb := p.mustEat(token.RIGHT_BRACKET)
 		rg := pos.Range(t, rb)
 		return ast.List(elems, rg)
-	}
-}
-
-func parseMap(t *token.Token) func(p *parser) ast.Expr {
-	return func(p *parser) ast.Expr {
-		pairs := make([]ast.Pair, 0)
-		for {
-			if p.peek().Kind == token.RIGHT_BRACKET {
-				break
-			}
-			k := p.expr(0)
-			p.mustEat(token.COLON)
-			v := p.expr(0)
-			pairs = append(pairs, ast.Pair{Key: k, Val: v})
-			if p.tryEat(token.COMMA) == nil {
-				break
-			}
-		}
-		rb := p.mustEat(token.RIGHT_BRACKET)
-		rg := pos.Range(t, rb)
-		return ast.Map(pairs, rg)
 	}
 }
 
